@@ -89,6 +89,7 @@ fn worker(args: &[String]) -> i32 {
     let variant = arg(args, "--variant").unwrap_or("api");
     let seed: u64 = arg(args, "--seed").unwrap_or("0").parse().unwrap();
     let wid: u64 = arg(args, "--worker").unwrap_or("0").parse().unwrap();
+    exec::CONFIG_ROUTE.store((wid % 4) as u8, std::sync::atomic::Ordering::SeqCst);
     let cases: u32 = arg(args, "--cases").unwrap_or("100").parse().unwrap();
     let out = arg(args, "--out").expect("--out");
     let cancelable = arg(args, "--cancelable").unwrap_or("false") == "true";
